@@ -16,6 +16,7 @@ from ..seams import (Stepper, Ambient, UserFuncs, SimFS, install_fs,
                      uninstall_fs)
 
 ID = 'C04'
+USES_CHILD = True
 BUDGET = {
     'quick': {'runs': 4000, 'wall': 240, 'chunk': 40, 'shrink': 300},
     'thorough': {'runs': 250000, 'wall': 2400, 'chunk': 200, 'shrink': 600},
@@ -483,6 +484,18 @@ class History:
                         _j(canon(model.cells[a].value)))
             return
         # ---- oracle 1: equals the fresh twin -------------------------------
+        if self.case['knobs'].get('decoy') and out == want:
+            # the in-process twin was compiled after the decoy as well; ask
+            # a process that has never seen any model
+            from ..restorer import Child
+            resp = Child.get().twin_eval(
+                world, self.inputs, [addr], tag=tag,
+                max_empty=self.case['knobs'].get('max_empty', 100),
+                seed=self.case['seed'])
+            self.bump('probe:twin_in_pristine_process')
+            if resp.get('ok'):
+                want = resp['outcomes'][addr]
+                out = json.loads(json.dumps(out))
         if out != want:
             self.fail('stale-or-wrong-value', seq, target=target, got=out,
                       fresh_twin=want)
